@@ -292,6 +292,7 @@ func (lm *ledModel) expect(i int) ledExpect {
 	}
 	learn := -1
 	unknownChannel := false
+	onCurrent := lm.ext[st.Channel][byte(pitch)]
 	for ch := 0; ch < 16; ch++ {
 		if !lm.ext[ch][byte(pitch)] {
 			continue
@@ -299,6 +300,10 @@ func (lm *ledModel) expect(i int) ledExpect {
 		if ch == st.Channel {
 			opts = append(opts, rgbOf(cols[6]))
 			why = append(why, "sounding on MIDI input, current channel")
+		} else if onCurrent {
+			// a pitch sounding on the current channel shows the external colour; that it also sounds on another
+			// channel does not turn it into that channel's colour
+			continue
 		} else if c, ok := lm.chanCol[ch]; ok {
 			opts = append(opts, c)
 			why = append(why, fmt.Sprintf("sounding on MIDI input, channel %d", ch+1))
